@@ -72,6 +72,9 @@ pub struct Recorder {
     pub events: u64,
     next_id: u64,
     pub avoided: u64,
+    /// keep out of the two known-finding classes (default); when false the histories are
+    /// unrestricted - used to look for panics inside those classes, where wrong answers are known
+    pub avoid: bool,
 }
 
 impl Recorder {
@@ -81,6 +84,7 @@ impl Recorder {
             events: 0,
             next_id: 1,
             avoided: 0,
+            avoid: true,
         }
     }
     fn emit(&mut self, v: Value) {
@@ -125,7 +129,7 @@ impl Recorder {
     /// apply one operation (keeping out of the known-finding classes), then log len/is_empty/hint
     fn apply(&mut self, it: &mut Inst, op: &Op, clones: &mut Vec<Inst>) {
         let mutating = matches!(op, Op::SetMask(_) | Op::Remove(_) | Op::RemoveMove(_));
-        if mutating {
+        if mutating && self.avoid {
             // K1: finish the promotion destination in progress first
             let mut guard = 0;
             while it.mid_promotion() && guard < 8 {
@@ -159,7 +163,7 @@ impl Recorder {
                 self.emit(json!({"ev": "it_remove", "id": it.id, "mask": m}));
             }
             Op::RemoveMove(c) => {
-                if c % 5 != 0 {
+                if c % 5 != 0 && self.avoid {
                     // K2: remove_move of a promotion move
                     self.avoided += 1;
                 } else {
@@ -264,7 +268,7 @@ pub fn op_alphabet(board: &Board, rng: &mut impl Rng, singles: usize, moves: usi
     for m in masks.iter().skip(1).step_by(2) {
         ops.push(Op::Remove(m.clone()));
     }
-    let mut mv: Vec<u32> = legals.iter().copied().filter(|c| c % 5 == 0).collect();
+    let mut mv: Vec<u32> = legals.iter().copied().collect();
     mv.shuffle(rng);
     for c in mv.iter().take(moves) {
         ops.push(Op::RemoveMove(*c));
@@ -319,6 +323,7 @@ pub fn record_iter(opts: &Opts) -> i32 {
     let depth = opts.num("depth", 3) as usize;
     let tags = opts.str("tags", "promo,ep");
     let mut rec = Recorder::new(&opts.str("out", "iter.ndjson"));
+    rec.avoid = !opts.flag("no-avoid");
     let mut rng = rng(seed, 500 + shard);
     let pos = positions(&roots, &tags, seed, opts.num("walk", 2));
     let mine: Vec<&Board> = pos.iter().enumerate().filter(|(i, _)| (*i as u64) % shards == shard).map(|(_, b)| b).collect();
